@@ -282,6 +282,7 @@ def no_panic(ctx, res, env, st, extra_assumptions=(), what=''):
             res.detail = f'{what}: panic reachable: {msg}'
             if verdict == 'sat':
                 res.counterexample = {'what': what + ' panic: ' + msg, 'model': {str(d): str(model[d]) for d in model.decls()}}
+                res.model = model          # the inputs that reach the panic: callers build their replay case from it
             return False
     return True
 
